@@ -694,3 +694,71 @@ class CallGraph:
 
     def callers_of(self, target):
         return {a for a, bs in self.edges.items() if target in bs}
+
+
+def inline_module_helpers(fx, body, max_nodes=400):
+    """A copy of `body` whose HIR has the calls of small free functions of the SAME module replaced by a block that binds the
+    parameters to the arguments and runs the helper's body (locals renumbered), so that a structural analysis of one function
+    still sees the code a refactoring moved into a private helper next to it. Helpers that are used as plain utilities by the
+    function before the refactoring (already small calls) are inlined as well - that only shows the analysis more code."""
+    import copy
+
+    mod = body["def"].rsplit("::", 1)[0] + "::"
+    offset = [1_000_000]
+
+    def renumber(node, off):
+        if isinstance(node, dict):
+            if "local" in node and isinstance(node["local"], int):
+                node["local"] = node["local"] + off
+            for v in node.values():
+                renumber(v, off)
+        elif isinstance(node, list):
+            for v in node:
+                renumber(v, off)
+
+    def rewrite(node, depth):
+        if isinstance(node, list):
+            return [rewrite(x, depth) for x in node]
+        if not isinstance(node, dict):
+            return node
+        out = {k: rewrite(v, depth) for k, v in node.items()}
+        if out.get("k") == "Call" and depth < 2:
+            d = callee_def(out) or ""
+            hb = fx.body(d) if d.startswith(mod) and d != body["def"] else None
+            if hb is not None and hb.get("hir") and not hb.get("impl_self") and str(hb.get("kind", "")).lower() == "fn":
+                hir = hb["hir"]
+                params = hir["params"]
+                if len(params) == len(out.get("args", [])) and all(p.get("p") == "Bind" for p in params) and sum(1 for _ in walk(hir["value"])) <= max_nodes:
+                    h = copy.deepcopy({"params": params, "value": hir["value"]})
+                    off = offset[0]
+                    offset[0] += 100_000
+                    renumber(h, off)
+                    # a parameter that is handed a plain local (or a reference to one) IS that local in the inlined copy
+                    stmts = []
+                    for p, a in zip(h["params"], out["args"]):
+                        a0 = a
+                        while isinstance(a0, dict) and a0.get("k") in ("AddrOf", "DropTemps", "Use") and "e" in a0:
+                            a0 = a0["e"]
+                        if isinstance(a0, dict) and a0.get("k") == "Path" and a0.get("res") == "local":
+                            def subst(node, frm=p["local"], to=a0["local"], nm=a0.get("name")):
+                                if isinstance(node, dict):
+                                    if node.get("local") == frm and node.get("k") == "Path":
+                                        node["local"] = to
+                                        if nm:
+                                            node["name"] = nm
+                                    for v in node.values():
+                                        subst(v)
+                                elif isinstance(node, list):
+                                    for v in node:
+                                        subst(v)
+                            subst(h["value"])
+                        else:
+                            stmts.append({"s": "Let", "pat": p, "init": a, "span": out.get("span")})
+                    hv = rewrite(h["value"], depth + 1)
+                    return {"k": "Block", "block": {"stmts": stmts, "expr": hv}, "ty": out.get("ty"), "span": out.get("span"), "inlined_from": d}
+        return out
+
+    new = dict(body)
+    new["hir"] = dict(body["hir"])
+    new["hir"]["value"] = rewrite(body["hir"]["value"], 0)
+    return new
